@@ -2,7 +2,9 @@
 //
 // Facts: the boolean expression of entitySorter.Less is translated from the source (go/ast)
 // into a Lean term over aOff aLen bOff bLen; the theorems of TdModel/Props/C36.lean are about
-// that regenerated term.  Correspondence: Less on an exhaustive small grid and on random pairs,
+// that regenerated term.  Defect D8 (open known finding): the source's comparator is
+// `off< || len>`, not a strict weak order; failures caused by exactly that expression are keyed
+// `…:pinned-comparator`, every other failure keeps a generic key (⇒ VIOLATION).  Correspondence: Less on an exhaustive small grid and on random pairs,
 // entity.SortEntities / Builder.Complete on random lists with many ties against the model's
 // insertion sort (for a strict weak order whose ties are equal (off,len) pairs the sorted
 // (off,len) sequence is unique, theorem sorted_unique).  Monitor: the implementation's output
@@ -112,6 +114,22 @@ func multiset(es []tg.MessageEntityClass) string {
 	return strings.Join(parts, ",")
 }
 
+func specLess(ao, al, bo, bl int) bool   { return ao < bo || (ao == bo && al > bl) }
+func pinnedLess(ao, al, bo, bl int) bool { return ao < bo || al > bl }
+
+// compatible: no entity starts later than another one and is longer — on such lists the pinned
+// comparator coincides with the specification's (Lean: `Compatible`).
+func compatible(es []tg.MessageEntityClass) bool {
+	for _, a := range es {
+		for _, b := range es {
+			if b.GetOffset() < a.GetOffset() && a.GetLength() > b.GetLength() {
+				return false
+			}
+		}
+	}
+	return true
+}
+
 func genList(r *hc.RNG) []ent {
 	n := hc.Pick(r, 0, 1, 2, 2, 3, 3, 4, 5, 6, 8, 12, 13, 20, 40, r.Range(0, 40))
 	style := r.Intn(5)
@@ -206,6 +224,36 @@ func run(c *hc.Ctx) error {
 	r := c.Rng
 	var lines, impls []string
 
+	// Is the comparator in the working tree the pinned (defective) expression?  Only then are
+	// failures attributed to the known finding.
+	_, src, _ := hc.C36LessTerm(hc.NewFacts("C36", c.Repo), pkgDir)
+	pinned := src == hc.C36PinnedLessSrc
+	c.Note("comparator source: %s (pinned defective expression: %v)", src, pinned)
+	// hc keeps the first 10 failures only: report each known-finding key at most twice (the rest is
+	// counted in the distribution) so that any other failure is always among the recorded ones.
+	knownSeen := map[string]int{}
+	fail := func(key, input, detail string) {
+		if strings.HasSuffix(key, ":pinned-comparator") {
+			knownSeen[key]++
+			c.Count("known-finding." + key)
+			if knownSeen[key] > 2 {
+				return
+			}
+		}
+		c.Fail(key, input, detail)
+	}
+	lessCheck := func(input string, got bool, ao, al, bo, bl int) {
+		want := specLess(ao, al, bo, bl)
+		if got == want {
+			return
+		}
+		key := "less-not-spec"
+		if pinned && got == pinnedLess(ao, al, bo, bl) {
+			key = "comparator-not-spec:pinned-comparator"
+		}
+		fail(key, input, fmt.Sprintf("Less=%v, specification (offset ascending, then length descending)=%v", got, want))
+	}
+
 	// ---- 1. the comparator itself: exhaustive grid, then random pairs
 	grid := []int{-1, 0, 1, 2, 3}
 	for _, ao := range grid {
@@ -215,12 +263,9 @@ func run(c *hc.Ctx) error {
 					got := entity.VerifC36Less(mk(ent{ao, al, 0}), mk(ent{bo, bl, 1}))
 					lines = append(lines, fmt.Sprintf("less %d %d %d %d", ao, al, bo, bl))
 					impls = append(impls, b01(got))
-					want := ao < bo || (ao == bo && al > bl)
 					c.Eval(lines[len(lines)-1], ao != bo || al != bl)
 					c.Count("less.grid")
-					if got != want {
-						c.Fail("less-not-spec", lines[len(lines)-1], fmt.Sprintf("Less=%v, specification (offset ascending, then length descending)=%v", got, want))
-					}
+					lessCheck(lines[len(lines)-1], got, ao, al, bo, bl)
 				}
 			}
 		}
@@ -236,22 +281,24 @@ func run(c *hc.Ctx) error {
 		impls = append(impls, b01(got))
 		c.Eval(lines[len(lines)-1], true)
 		c.Count("less.random")
-		if want := ao < bo || (ao == bo && al > bl); got != want {
-			c.Fail("less-not-spec", lines[len(lines)-1], fmt.Sprintf("Less=%v, specification=%v", got, want))
-		}
+		lessCheck(lines[len(lines)-1], got, ao, al, bo, bl)
 	}
 
 	// ---- 2. SortEntities on arbitrary lists
-	check := func(kind, input string, in, out []tg.MessageEntityClass, inSet string) {
-		if multiset(out) != inSet {
-			c.Fail("sort-not-permutation", input, "output "+multiset(out)+" is not a permutation of the input "+inSet)
+	check := func(input string, out []tg.MessageEntityClass, inSet string) {
+		perm := multiset(out) == inSet
+		if !perm {
+			fail("sort-not-permutation", input, "output "+multiset(out)+" is not a permutation of the input "+inSet)
 		}
 		if ok, at := ordered(out); !ok {
-			c.Fail("sort-not-ordered", input, fmt.Sprintf("output %s: position %d (%d:%d) is followed by (%d:%d)", show(out), at,
+			key := "sort-not-ordered"
+			if pinned && perm && !compatible(out) {
+				// exactly D8: the input has a pair on which `off< || len>` differs from the specification
+				key = "unsorted-output:pinned-comparator"
+			}
+			fail(key, input, fmt.Sprintf("output %s: position %d (%d:%d) is followed by (%d:%d)", show(out), at,
 				out[at].GetOffset(), out[at].GetLength(), out[at+1].GetOffset(), out[at+1].GetLength()))
 		}
-		_ = in
-		_ = kind
 	}
 	// the witness of DESIGN.md D8 always runs first
 	fixed := [][]ent{
@@ -295,12 +342,22 @@ func run(c *hc.Ctx) error {
 		}
 		c.Count(fmt.Sprintf("sort.len/10=%d", len(es)/10))
 		if p := sortSafe(out); p != nil {
-			c.Fail("sort-panic", input, fmt.Sprint(p))
+			fail("sort-panic", input, fmt.Sprint(p))
 			continue
 		}
-		check("sort", input, in, out, inSet)
-		lines = append(lines, input)
-		impls = append(impls, show(out))
+		check(input, out, inSet)
+		if k < len(fixed) {
+			c.Note("witness %s -> %s", input, show(out))
+		}
+		if compatible(in) {
+			c.Count("sort.compatible")
+			lines = append(lines, input)
+			impls = append(impls, "compatible "+show(out))
+		} else {
+			c.Count("sort.incompatible")
+			lines = append(lines, input)
+			impls = append(impls, "incompatible")
+		}
 		// the model's decidable monitor evaluated on the implementation's observation
 		ok, _ := ordered(out)
 		lines = append(lines, "holds "+show(out))
@@ -315,11 +372,20 @@ func run(c *hc.Ctx) error {
 		c.Eval(input, len(out) >= 2)
 		c.Count("complete")
 		if len(unsorted) != len(out) {
-			c.Fail("complete-length", input, fmt.Sprintf("Raw has %d entities, Complete %d", len(unsorted), len(out)))
+			fail("complete-length", input, fmt.Sprintf("Raw has %d entities, Complete %d", len(unsorted), len(out)))
 			continue
 		}
 		if ok, at := ordered(out); !ok {
-			c.Fail("sort-not-ordered", input, fmt.Sprintf("Complete() output %s is not ordered at position %d", show(out), at))
+			key := "sort-not-ordered"
+			if pinned && !compatible(out) {
+				key = "unsorted-output:pinned-comparator"
+			}
+			fail(key, input, fmt.Sprintf("Complete() output %s is not ordered at position %d", show(out), at))
+		}
+		if compatible(out) {
+			c.Count("complete.compatible")
+		} else {
+			c.Count("complete.incompatible")
 		}
 		ok, _ := ordered(out)
 		lines = append(lines, "holds "+show(out))
@@ -327,6 +393,7 @@ func run(c *hc.Ctx) error {
 	}
 
 	c.Res.Rule = "Less: every (aOff,aLen,bOff,bLen) in {-1..3}^4 (exhaustive) plus random pairs with 40% equal offsets; SortEntities: lists of length 0..40 in five styles (tiny alphabet with many ties, equal offsets, nested spans, extreme values, uniform), non-trivial = at least two entities; Complete: random builder op sequences with nested tokens; distinct = distinct input line"
+	c.PartialNote("defect D8 is open: for lists that are not `compatible` (some entity starts later than another one and is longer) the source's comparator gives sort.Sort no contract, the model predicts nothing and only the monitor runs")
 	c.PartialNote("sort.Sort itself is not modelled: only its contract (output is a permutation, no adjacent inversion w.r.t. Less) is assumed, and checked on every run by the monitor")
 
 	outs, err := c.Drv.Batch(lines)
